@@ -1,6 +1,7 @@
 import DaskModel.Model.NormalForm
 import DaskModel.Lemmas.NormalForm
 import DaskModel.Lemmas.Determinism
+import DaskModel.Lemmas.ReprInj
 import DaskModel.Generated.TokenDispatch
 /-!
 # C12 — tokens are deterministic and distinct values get distinct tokens
@@ -206,5 +207,35 @@ example : norm (.ndarray "dtype('int64')" [2, 3] [3, 1] 0 [0, 1, 2, 3, 4, 5])
     rw [e2] at h2
     rw [← h1] at h2
     simp at h2
+
+/-! ## the printed pre-image is injective -/
+
+/-- `repr` of a str / bytes object is self-delimiting: the string and the rest of the text can be read back
+    (quotes inside are escaped or are not the delimiter) -/
+theorem repr_str_self_delimiting (cs ds r1 r2 : List Char) (h : reprStrChars cs ++ r1 = reprStrChars ds ++ r2) :
+    cs = ds ∧ r1 = r2 := reprStr_inj cs ds r1 r2 h
+
+/-- `show_injective_on_nf`: Python `repr` is injective on nested tuples / lists of ints, bools, None, str, bytes —
+    the normal forms of plain data -/
+theorem show_injective_on_nf (a b : Val) (ha : plainV a = true) (hb : plainV b = true) (h : pyRepr a = pyRepr b) :
+    a = b := pyRepr_injective a b ha hb h
+
+/-- **For plain data (ints, bools, None, str, bytes in nested lists, tuples, dicts, sets) equal md5 pre-images mean
+    observably equal values** — with md5 injective: equal tokens ⇒ equal values. -/
+theorem preimage_injective (a b : Val) (ha : dataV a = true) (hb : dataV b = true) (h : tokPre [a] = tokPre [b]) :
+    ObsEq a b := by
+  have hp : ∀ v, dataV v = true → plainV (.tuple (normL [v])) = true := by
+    intro v hv
+    simp [plainV, plainL, normL, norm_plain v hv]
+  have := pyRepr_injective _ _ (hp a ha) (hp b hb) h
+  simp only [normL, Val.tuple.injEq, List.cons.injEq, and_true] at this
+  exact norm_injective a b this
+
+/-- the quoting pitfall: `["a', 'b"]` and `['a', 'b']` have different pre-images -/
+example : tokPre [.list [.str "a', 'b"]] ≠ tokPre [.list [.str "a", .str "b"]] := by
+  intro h
+  have := preimage_injective _ _ (by decide) (by decide) h
+  cases this with
+  | list hl => cases hl with | cons h1 h2 => cases h2
 
 end Dask.C12
